@@ -105,12 +105,16 @@ pub open spec fn arg_value_typed(a: FnArg) -> bool {
         FnArg::Test(t) => test_singular(*t) || (*t matches Test::Function(tf) && !fn_is_logical(*tf)),
     }
 }
+pub open spec fn arg_plain(a: FnArg) -> bool { arg_value_typed(a) || a is Filter }
 pub open spec fn arg_logical_fn(a: FnArg) -> bool {
     a matches FnArg::Test(t) && *t matches Test::Function(tf) && fn_is_logical(*tf)
 }
 pub open spec fn wf_fn(tf: TestFunction) -> bool decreases tf {
     match tf {
-        TestFunction::Custom(name, args) => forall|i: int| 0 <= i < args@.len() ==> wf_arg(#[trigger] args@[i]),
+        // an extension function takes VALUES (RFC 9535 2.4.1: ValueType parameters): each argument is a literal, a singular query,
+        // a value-typed function or a logical expression — never a non-singular query (whose nodes would be handed over one
+        // by one) and never a LogicalType function result (of which only the truth is specified)
+        TestFunction::Custom(name, args) => forall|i: int| 0 <= i < args@.len() ==> wf_arg(#[trigger] args@[i]) && arg_plain(args@[i]),
         TestFunction::Length(a) => wf_arg(*a) && arg_value_typed(*a),
         TestFunction::Value(a) => wf_arg(a) && !arg_logical_fn(a),
         TestFunction::Count(a) => wf_arg(a) && !arg_logical_fn(a),
@@ -393,7 +397,7 @@ pub open spec fn arg_count<'a, T: Queryable>(a: ArgV<'a, T>) -> int {
 }
 // abstract: number of Unicode scalar values == length of the char sequence; regex engine; extension hook
 pub uninterp spec fn regex_match(subject: Seq<char>, pattern: Seq<char>, search: bool) -> bool;
-pub uninterp spec fn custom_result<'a, T: Queryable>(name: Seq<char>, args: Seq<ArgV<'a, T>>) -> T;
+pub open spec fn opt_seq<A>(o: Option<A>) -> Seq<A> { match o { Some(v) => seq![v], None => Seq::<A>::empty() } }
 
 pub open spec fn length_of<T: Queryable>(v: T) -> Option<T> {
     match (v.as_str_spec(), v.as_array_spec(), v.as_object_spec()) {
@@ -420,7 +424,9 @@ pub open spec fn str_of<T: Queryable>(v: Option<T>) -> Option<Seq<char>> {
 pub open spec fn custom_value<'a, T: Queryable>(name: Seq<char>, args: Seq<FnArg>, cur: &'a T, root: &'a T) -> T
     decreases args, 0int
 {
-    custom_result::<T>(name, Seq::new(args.len(), |i: int| if 0 <= i < args.len() { arg_denote(args[i], cur, root) } else { arbitrary() }))
+    // the data type's extension hook applied to the VALUES of the arguments, in written order; an argument that denotes
+    // nothing (a singular query that selects no node) contributes no value
+    T::ext_spec(name, concat(Seq::new(args.len(), |i: int| if 0 <= i < args.len() { opt_seq(arg_value(arg_denote(args[i], cur, root))) } else { Seq::<T>::empty() })))
 }
 // logical-typed functions: match, search, extension
 pub open spec fn fn_logical<'a, T: Queryable>(tf: TestFunction, cur: &'a T, root: &'a T) -> bool
